@@ -61,7 +61,7 @@ def build(g, sid, positions, SR, chans, deviant=None, has_SR=True, amp=True, off
     return ops
 
 
-def inconsistent_subs(g, SR, chans):
+def inconsistent_subs(g, SR, chans, with_empty=False):
     """a parent that holds (a) a subsequence with a hole at position 1 and (b) a subsequence whose elements define
     different channel sets (in random order, sometimes beside a consistent entry): each of them is inconsistent by
     itself, so the parent's checkConsistency answers False (it raised SequenceConsistencyError before the repair D27)
@@ -73,6 +73,10 @@ def inconsistent_subs(g, SR, chans):
     r.shuffle(kinds)
     if r.random() < 0.5:
         kinds.insert(r.randrange(3), r.choice(["ok", "el"]))
+    if with_empty:
+        # D28: a stored subsequence that holds no element at all (its `channels` query raises KeyError): alone, next to
+        # an ordinary element (before or behind it), or among inconsistent subsequences - the answer is False, not KeyError
+        kinds = r.choice([["empty"], ["el", "empty"], ["empty", "el"], ["ok", "empty"], ["empty"] + kinds, kinds + ["empty"]])
     for p, kind in enumerate(kinds, 1):
         if kind == "el":
             eid = g.fresh("e")
@@ -87,6 +91,8 @@ def inconsistent_subs(g, SR, chans):
             other = chans[:-1] + ["zz"] if r.random() < 0.5 else chans + ["extra"]
             inner = [(1, list(chans)), (2, other)]
             r.shuffle(inner)
+        elif kind == "empty":
+            inner = []
         else:
             inner = [(1, list(chans))]
         for q_, chs in inner:
@@ -132,6 +138,9 @@ def case(g, tier, ci):
     if ci % 12 == 7:
         # inconsistent subsequences inside the parent, then check (plain and verbose), channels, forge, + (observe)
         return inconsistent_subs(g, SR, chans) + build(g, "t", [1], SR, chans, subs=0.0) + observe("s", "t")
+    if ci % 12 == 2:
+        # ... and empty stored subsequences (D28)
+        return inconsistent_subs(g, SR, chans, with_empty=True) + build(g, "t", [1], SR, chans, subs=0.0) + observe("s", "t")
     dv = None
     u = r.random()
     if positions and u < 0.20:
